@@ -82,6 +82,10 @@ type srvSpec struct {
 	// simply blocks, passed to proxy.ListenAndServeTCP; dial = the real tcp.Proxy with a 5 s
 	// DialTimeout inside net.DialTimeout to an upstream that does not answer its SYNs.
 	Stuck []int `json:"stuck,omitempty"`
+	// multi-homed configurations: the local IP to listen on (default 127.0.0.1) and, when > 0,
+	// a group number: all servers of a group listen on the SAME port number (on different IPs)
+	IP        string `json:"ip,omitempty"`
+	PortGroup int    `json:"port_group,omitempty"`
 }
 
 type scenario struct {
@@ -102,6 +106,7 @@ type result struct {
 	Probe     []bool    `json:"accepted_after_begin"`
 	ProbeLate []bool    `json:"accepted_after_return"`
 	Items     [][][]obs `json:"items"` // server, leaf, item
+	Addrs     []string  `json:"addrs"` // the configured listen addresses
 	Left      int       `json:"registry_left"`
 	Err       string    `json:"err,omitempty"`
 	Skip      string    `json:"skip,omitempty"` // the scenario cannot be built on this machine
@@ -229,6 +234,35 @@ func freeAddr() string {
 	return a
 }
 
+// freePortOn returns a port number that is free on every one of the given local IPs;
+// ok=false when one of them cannot be bound at all on this machine.
+func freePortOn(ips []string) (port string, ok bool) {
+	for try := 0; try < 20; try++ {
+		ln, err := net.Listen("tcp", ips[0]+":0")
+		if err != nil {
+			return "", false
+		}
+		_, port, _ = net.SplitHostPort(ln.Addr().String())
+		ln.Close()
+		free := true
+		for _, ip := range ips[1:] {
+			l2, err := net.Listen("tcp", ip+":"+port)
+			if err != nil {
+				if !strings.Contains(err.Error(), "in use") {
+					return "", false
+				}
+				free = false
+				break
+			}
+			l2.Close()
+		}
+		if free {
+			return port, true
+		}
+	}
+	return "", false
+}
+
 func selfSigned() tls.Certificate {
 	key, _ := ecdsa.GenerateKey(elliptic.P256(), rand.Reader)
 	tpl := &x509.Certificate{SerialNumber: big.NewInt(1), Subject: pkix.Name{CommonName: "web.test"},
@@ -301,8 +335,37 @@ func runChild(sc scenario) (res result) {
 	fmt.Fprintf(&tbl, "route add rpc rpc.test/ grpc://%s opts \"proto=grpc\"\n", grpcLn.Addr())
 	fmt.Fprintf(&tbl, "route add sni tunnel.test/ tcp://%s opts \"proto=tcp\"\n", tcpB.Addr())
 	hole := ""
+	groupPort := map[int]string{}
+	for _, s := range sc.Servers {
+		if s.PortGroup > 0 && groupPort[s.PortGroup] == "" {
+			var ips []string
+			for _, s2 := range sc.Servers {
+				if s2.PortGroup == s.PortGroup {
+					ip := s2.IP
+					if ip == "" {
+						ip = "127.0.0.1"
+					}
+					ips = append(ips, ip)
+				}
+			}
+			port, ok := freePortOn(ips)
+			if !ok {
+				res.Skip = "a second loopback address (127.0.0.2) cannot be bound on this machine"
+				return
+			}
+			groupPort[s.PortGroup] = port
+		}
+	}
+	routed := map[string]bool{}
 	for i, s := range sc.Servers {
 		addrs[i] = freeAddr()
+		if s.PortGroup > 0 {
+			ip := s.IP
+			if ip == "" {
+				ip = "127.0.0.1"
+			}
+			addrs[i] = ip + ":" + groupPort[s.PortGroup]
+		}
 		if s.Kind == "dial" {
 			if hole == "" {
 				var ok bool
@@ -314,8 +377,8 @@ func runChild(sc scenario) (res result) {
 			_, port, _ := net.SplitHostPort(addrs[i])
 			fmt.Fprintf(&tbl, "route add hole%d :%s tcp://%s\n", i, port, hole)
 		}
-		if s.Kind == "tcp" || s.Kind == "dyn" {
-			_, port, _ := net.SplitHostPort(addrs[i])
+		if _, port, _ := net.SplitHostPort(addrs[i]); (s.Kind == "tcp" || s.Kind == "dyn") && !routed[port] {
+			routed[port] = true
 			fmt.Fprintf(&tbl, "route add tun%d :%s tcp://%s\n", i, port, tcpB.Addr())
 		}
 	}
@@ -431,20 +494,17 @@ func runChild(sc scenario) (res result) {
 			panic("unknown kind " + s.Kind)
 		}
 	}
-	// wait until serve() has registered every listener
+	res.Addrs = addrs
+	// wait until the registry of running servers has stopped growing (the harness does not assume
+	// how serve() keys it); that every accept loop runs is established by the warm-up below
 	deadline := time.Now().Add(5 * time.Second)
+	last, since := -1, time.Now()
 	for {
-		reg := map[string]bool{}
-		for _, a := range proxy.VerifC18ServerAddrs() {
-			reg[a] = true
+		n := len(proxy.VerifC18ServerAddrs())
+		if n != last {
+			last, since = n, time.Now()
 		}
-		n := 0
-		for _, a := range addrs {
-			if reg[a] {
-				n++
-			}
-		}
-		if n == len(addrs) {
+		if n > 0 && time.Since(since) >= 120*time.Millisecond {
 			break
 		}
 		select {
@@ -454,7 +514,7 @@ func runChild(sc scenario) (res result) {
 		default:
 		}
 		if time.Now().After(deadline) {
-			res.Err = "listeners not registered within 5s"
+			res.Err = "no listener registered within 5s"
 			return
 		}
 		time.Sleep(5 * time.Millisecond)
@@ -779,6 +839,14 @@ func coqServer(s srvSpec) string {
 	panic("kind")
 }
 
+// coqAddr renders "a.b.c.d:port" as the pair (ip as a number, port).
+func coqAddr(a string) string {
+	host, port, _ := net.SplitHostPort(a)
+	ip := net.ParseIP(host).To4()
+	n := uint64(ip[0])<<24 | uint64(ip[1])<<16 | uint64(ip[2])<<8 | uint64(ip[3])
+	return vh.Pair(strconv.FormatUint(n, 10), port)
+}
+
 func coqObs(o obs) string {
 	switch o.K {
 	case "done":
@@ -855,6 +923,14 @@ func main() {
 		{Name: "tcp-stuck-handler", Class: "tcp-stuck-handler", Servers: []srvSpec{
 			{Kind: "blk", Stuck: []int{short(), 10 * wait}}, {Kind: "tcp", Items: []int{short(), never}}}},
 		{Name: "tcp-stuck-dialing", Class: "tcp-stuck-handler", Servers: []srvSpec{{Kind: "dial", Stuck: []int{5000}}}},
+		// multi-homed: the same port number on two local addresses
+		{Name: "same-port-tcp+tcp", Class: "same-port", Servers: []srvSpec{
+			{Kind: "tcp", Items: []int{short(), never}, PortGroup: 1}, {Kind: "tcp", Items: []int{short(), long()}, IP: "127.0.0.2", PortGroup: 1}}},
+		{Name: "same-port-http+http", Class: "same-port", Servers: []srvSpec{
+			{Kind: "http", Items: []int{short(), long()}, PortGroup: 1}, {Kind: "http", Items: []int{short(), short()}, IP: "127.0.0.2", PortGroup: 1}}},
+		{Name: "same-port-http+tcp", Class: "same-port", Servers: []srvSpec{
+			{Kind: "http", Items: []int{short(), long()}, IP: "127.0.0.2", PortGroup: 1}, {Kind: "tcp", Items: []int{short(), never}, PortGroup: 1},
+			{Kind: "grpc", Items: []int{short()}, PortGroup: 2}, {Kind: "dyn", Items: []int{short()}, IP: "127.0.0.2", PortGroup: 2}}},
 		{Name: "idle-http", Class: "idle", Servers: []srvSpec{{Kind: "http"}}},
 		{Name: "idle-all", Class: "idle", Servers: []srvSpec{{Kind: "http"}, {Kind: "tcp"}, {Kind: "grpc"}, {Kind: "comp"}}},
 	}
@@ -939,7 +1015,7 @@ func main() {
 		}
 		srv := make([]string, len(sc.Servers))
 		for k, s := range sc.Servers {
-			srv[k] = coqServer(s)
+			srv[k] = vh.Pair(coqAddr(res.Addrs[k]), coqServer(s))
 		}
 		T := vh.None
 		if res.T >= 0 {
